@@ -71,6 +71,8 @@ type ChanObj struct {
 	// rendezvous for unbuffered channels
 	recvWaiting int
 	handoff     []Value // values handed to a waiting receiver
+	path        *PathState
+	tick        int // PathState.tick at creation
 	id          int
 	timer       bool // fires at a scheduler-chosen moment
 	fired       bool
@@ -217,6 +219,9 @@ func (m *Machine) block(cond func() bool, what string) {
 	self.enabled = cond
 	self.what = what
 	for {
+		if cond != nil && !cond() {
+			p.tick++ // the goroutine has to wait: time passes (armed timers may fire from now on)
+		}
 		var en []*Goroutine
 		for _, g := range p.gor {
 			if !g.done && (g.enabled == nil || g.enabled()) {
@@ -256,6 +261,7 @@ func (m *Machine) block(cond func() bool, what string) {
 		if selfEnabled {
 			p.switches++
 		}
+		p.tick++
 		next.resume <- struct{}{}
 		<-self.resume
 		p.cur = self
@@ -319,7 +325,7 @@ func (m *Machine) yieldPoint(what string) {
 
 func (m *Machine) newChan(n int, elem types.Type) *ChanObj {
 	m.path.mapSeq++
-	return &ChanObj{cap: n, elem: elem, id: m.path.mapSeq}
+	return &ChanObj{cap: n, elem: elem, id: m.path.mapSeq, path: m.path, tick: m.path.tick}
 }
 
 func (m *Machine) chanLen(c *ChanObj) int {
@@ -347,7 +353,10 @@ func (c *ChanObj) canSend() bool {
 
 func (c *ChanObj) canRecv() bool {
 	if c.timer && !c.fired {
-		return true // firing is a scheduler decision: enabling = fire
+		// firing is a scheduler decision, possible once the creating goroutine has waited or been
+		// descheduled at least once (a timer armed in a select cannot beat a message that is
+		// already there when the select starts)
+		return c.path != nil && c.path.tick > c.tick
 	}
 	return len(c.buf) > 0 || len(c.handoff) > 0 || c.closed
 }
@@ -418,7 +427,7 @@ func (m *Machine) chanTake(c *ChanObj) (Value, bool, bool) {
 		v := c.buf[0]
 		c.buf = c.buf[1:]
 		return v, true, true
-	case c.timer && !c.fired:
+	case c.timer && !c.fired && c.canRecv():
 		c.fired = true
 		return m.zero(c.elem), true, true
 	case c.closed:
